@@ -98,7 +98,13 @@ pub fn run_prepared(p: &Prepared, timeout_ms: u64) -> Value {
                         break;
                     }
                     let s = v["crashed"]["signal"].as_i64().unwrap_or(0);
-                    Some(format!("signal {s}"))
+                    if s == libc::SIGPROF as i64 {
+                        Some("hang: CPU-time limit of the case exceeded".to_string())
+                    } else if s == libc::SIGABRT as i64 {
+                        Some("signal 6 (abort, or the checking allocator cut a flood of bad frees short)".to_string())
+                    } else {
+                        Some(format!("signal {s}"))
+                    }
                 }
                 Err(e) => {
                     machinery = Some(format!("child result unreadable: {e}"));
@@ -115,7 +121,8 @@ pub fn run_prepared(p: &Prepared, timeout_ms: u64) -> Value {
         }
         crashes.push(json!({"func": f, "case": c, "phase": ph, "what": what}));
         skip_cases.insert((f, c));
-        if skip_cases.iter().filter(|(g, _)| *g == f).count() >= 3 {
+        // a hang is not retried on the function's other values; other crashes get three chances
+        if what.starts_with("hang") || what == "timeout" || skip_cases.iter().filter(|(g, _)| *g == f).count() >= 3 {
             skip_funcs.insert(f);
         }
     }
@@ -207,7 +214,7 @@ pub fn job(types: &[Ty], cfg: &CConfig, clang: &str, level2: bool, label: &str, 
                 }
                 for f in r["skipped_funcs"].as_array().unwrap() {
                     let f = f.as_u64().unwrap() as usize;
-                    skipped.push(json!([funcs[f].ty.to_string(), "remaining cases not run after 3 crashes of this function"]));
+                    skipped.push(json!([funcs[f].ty.to_string(), "remaining cases not run after a hang / 3 crashes of this function"]));
                 }
                 let res = &r["result"];
                 for pr in res["problems"].as_array().unwrap() {
